@@ -1,15 +1,18 @@
 CONSTANTS
  Vals = {"v1","v2"}
  Leaves = {"l1","l2"}
+ ObjSet = {"a","b","c"}
 SPECIFICATION Spec
 VIEW View
 INVARIANT TypeOK
 INVARIANT Precedence
 INVARIANT Tracking
 INVARIANT ResolveLocal
+INVARIANT KidsMembers
 PROPERTY LastWinsAndFrame
 PROPERTY RejectedNoChange
 PROPERTY InvalidRejected
 PROPERTY ResetRestores
 PROPERTY CopyIndependent
+PROPERTY KidsFrame
 CHECK_DEADLOCK FALSE
